@@ -69,6 +69,9 @@ TLA = [
     # ... and one that waits for more (m1 waits for m2 and m3, the root only for m1)
     ({"m0": "import 'm1'; print('m0');", "m1": "import 'm0'; import 'm2'; import 'm3'; print('m1');", "m2": "print('m2:s'); await null; print('m2:e');",
       "m3": "print('m3:s'); await null; await null; await null; print('m3:e');"}, ["m0"], "trace=m2:s,m3:s,m2:e,m3:e,m1,m0 outcomes=-"),
+    # an importer outside an async cycle requesting two of its members: it waits for the cycle root twice and is released twice
+    ({"main": "import 'x'; import 'y'; print('main');", "x": "import 'y'; print('x:start'); await null; print('x:end');", "y": "import 'x'; print('y');"},
+     ["main"], "trace=y,x:start,x:end,main outcomes=-"),
     # evaluating an async graph twice runs nothing twice
     ({"main": "import 'x'; print('main');", "x": "print('x:start'); await null; print('x:end');"}, ["main", "main", "x"], "trace=x:start,x:end,main outcomes=-,-,-"),
 ]
@@ -76,7 +79,7 @@ TLA = [
 def tla_graph(r):
     """a module graph in which modules may use top-level await (0-3 awaits between their two prints); nothing throws"""
     n = 2 + r() % 5
-    kind = r() % 3
+    kind = r() % 4
     deps = []
     for m in range(n):
         ds = []
@@ -94,6 +97,17 @@ def tla_graph(r):
     awaits = [[0, 0, 1, 2, 3][r() % 5] for _ in range(n)]
     if kind == 2:
         awaits = [0] + [1 + r() % 3 for _ in range(n - 1)]
+    if kind == 3 and n >= 3:            # an importer outside a cycle that requests several members of it (or one member twice)
+        k = 2 + r() % (n - 2)           # the cycle m1 -> m2 -> ... -> mk -> m1, somewhere with top-level await
+        deps = [[] for _ in range(n)]
+        for m in range(1, k + 1):
+            deps[m] = [m + 1 if m < k else 1]
+        for m in range(k + 1, n):
+            deps[m] = [1 + r() % k]
+            deps[1 + r() % k].append(m)
+        deps[0] = [1 + r() % k for _ in range(2 + r() % 2)] + ([r() % n] if r() % 2 else [])
+        awaits = [[0, 1][r() % 2]] + [[0, 1, 2][r() % 3] for _ in range(n - 1)]
+        awaits[1 + r() % k] = 1 + r() % 2
     mods = {}
     for m in range(n):
         mods["m%d" % m] = "".join("import 'm%d'; " % d for d in deps[m]) + "print('m%d:s'); " % m + "await null; " * awaits[m] + "print('m%d:e');" % m
@@ -207,7 +221,7 @@ def run(ck):
             ck.fail_input({"site": "top-level-await-scenario", "input": json.dumps(mods), "roots": roots, "expected": want, "actual": g,
                            "oracle": "trace worked out by hand from ECMA-262 16.2.1.5.3 (regression scenario, outside the Lean model)"})
     # ---- generated graphs WITH top-level await: outside the Lean model; the dependency-order statement itself is the oracle
-    tgraphs = [tla_graph(r) for _ in range(150 if quick else 4000)]
+    tgraphs = [tla_graph(r) for _ in range(600 if quick else 6000)]
     treqs = ["raw roots=%s %s" % (",".join(roots), " ".join("%s=%s" % (k, v.encode().hex()) for k, v in mods.items())) for _, _, mods, roots in tgraphs]
     rc, out, err = ck.run_bin(bins["c17"], input="\n".join(treqs) + "\n")
     got = [x for x in out.split("\n") if x]
